@@ -3,6 +3,9 @@
 The Coq dataflow model (Model/C15_Dataflow.v) describes the code WITH the repairs /verif/fixes/c15-*.diff; the definitions
 `*_before_fix` of the model are only used to NAME a violation when the implementation follows the old dataflow.
 
+Translator tie (regen_physcheck): gen/c15_py2coq.py regenerates the physicality-check decision functions and the seed/stream dispatch of
+execute_simulation from the current source; coq/gen/C15_Equiv.v (regenerated = hand model, transported theorems) is re-checked on every run.
+
 Sub-checks
   single    execute_simulation (single setting): repeat runs bit-identical; the data of every repetition is regenerated from the
             key the Coq dataflow model assigns to it (Generator(MT19937(SeedSequence(root, spawn_key=path))) at offset off);
@@ -11,6 +14,9 @@ Sub-checks
   race      execute_estimation under joblib's threading backend with a FORCED, recorded schedule (every task loads its data before any task optimises; steps serialised by locks):
             every task's estimate must be the serial estimate of ITS data (model run_private on the recorded schedule).
             Deterministic: nothing depends on a race manifesting.
+  reest     EVERY re-estimation entry point of both modules (re_estimate, re_estimate_sequence, _from_path, _from_index, flow
+            re_estimate_case_unit / _sample_unit / _test_setting_unit / _test_settings, load_simulation_results) on a stored run whose
+            estimators / options carry NON-default configuration and whose data make the projection run: bit-identical estimates.
   flow      execute_simulation_test_settings: worker counts {1,2,4} at each of the four joblib levels + repeats: objects,
             empirical distributions, estimates, check verdicts bit-identical; objects/data regenerated from the model keys
             (all mixes of noise methods); repetitions pairwise different; re_estimate reproduces; built-in physicality check
@@ -122,6 +128,14 @@ def parse_keys(vals, count):
     return out, vals[i:]
 
 
+def mk_seed(value, dtype=None):
+    """an integer seed of the given KIND: python int (dtype None) or a NumPy integer scalar (np.int64 from np.arange, np.uint32 from
+    SeedSequence.generate_state, ...).  The model knows only the VALUE (SInt n): the kind must not matter."""
+    if value is None:
+        return None
+    return int(value) if dtype is None else getattr(np, dtype)(int(value))
+
+
 def estimator_cases():
     from quara.protocol.qtomography.standard.linear_estimator import LinearEstimator
     from quara.protocol.qtomography.standard.projected_linear_estimator import ProjectedLinearEstimator
@@ -135,9 +149,18 @@ def estimator_cases():
         return ProjectedGradientDescentBacktrackingOption(
             mode_stopping_criterion_gradient_descent="sum_absolute_difference_variable",
             num_history_stopping_criterion_gradient_descent=1, eps=1e-9)
+    def pgdb_opt2():          # NON-default configuration: projection order, stopping rule, step parameter
+        return ProjectedGradientDescentBacktrackingOption(
+            mode_stopping_criterion_gradient_descent="sum_absolute_difference_variable",
+            num_history_stopping_criterion_gradient_descent=2, eps=1e-8, mode_proj_order="ineq_eq", gamma=0.4)
     return {
         "linear": dict(estimator=LinearEstimator(), loss=(None, None), algo=(None, None)),
         "projected_linear": dict(estimator=ProjectedLinearEstimator(), loss=(None, None), algo=(None, None)),
+        # estimators / options carrying NON-default configuration
+        "projected_linear_ineq_eq": dict(estimator=ProjectedLinearEstimator(mode_proj_order="ineq_eq"), loss=(None, None), algo=(None, None)),
+        "loss_min_ineq_eq": dict(estimator=LossMinimizationEstimator(),
+                                 loss=(StandardQTomographyBasedWeightedRelativeEntropy(), StandardQTomographyBasedWeightedRelativeEntropyOption("identity")),
+                                 algo=(ProjectedGradientDescentBacktracking(), pgdb_opt2())),
         "loss_min": dict(estimator=LossMinimizationEstimator(),
                          loss=(StandardQTomographyBasedWeightedRelativeEntropy(), StandardQTomographyBasedWeightedRelativeEntropyOption("identity")),
                          algo=(ProjectedGradientDescentBacktracking(), pgdb_opt())),
@@ -146,6 +169,8 @@ def estimator_cases():
 
 TOMO = {   # tomography type -> (true object, testers)
     "state": (("state", "a"), [("povm", "x"), ("povm", "y"), ("povm", "z")]),
+    "state_z0": (("state", "z0"), [("povm", "x"), ("povm", "y"), ("povm", "z")]),     # pure true state: linear estimates are often unphysical
+    "state_y1": (("state", "y1"), [("povm", "x"), ("povm", "y"), ("povm", "z")]),
     "povm": (("povm", "z"), [("state", "x0"), ("state", "y0"), ("state", "z0"), ("state", "z1")]),
     "gate": (("gate", "hadamard"), [("state", "x0"), ("state", "y0"), ("state", "z0"), ("state", "z1"), ("povm", "x"), ("povm", "y"), ("povm", "z")]),
     "mprocess": (("mprocess", "z-type1"), [("state", "x0"), ("state", "y0"), ("state", "z0"), ("state", "z1"), ("povm", "x"), ("povm", "y"), ("povm", "z")]),
@@ -262,7 +287,7 @@ def build_single(case):
     ec = estimator_cases()[case["est"]]
     st = sim.StandardQTomographySimulationSetting(
         name=case["est"], true_object=true, tester_objects=tobjs, estimator=ec["estimator"],
-        seed_data=case["seed_data"], n_rep=case["n_rep"], num_data=case["num_data"], schedules="all",
+        seed_data=mk_seed(case["seed_data"], case.get("seed_dtype")), n_rep=case["n_rep"], num_data=case["num_data"], schedules="all",
         eps_proj_physical=1e-5, eps_truncate_imaginary_part=1e-5,
         loss=ec["loss"][0], loss_option=ec["loss"][1], algo=ec["algo"][0], algo_option=ec["algo"][1])
     qt = sim.generate_qtomography(st, para=case["para"], init_with_seed=case.get("init_with_seed", True))
@@ -275,7 +300,7 @@ def single_arg(case):
     if a["kind"] == "none":
         return None
     if a["kind"] == "int":
-        return int(a["seed"])
+        return mk_seed(a["seed"], a.get("dtype"))
     return gen_from_key(a["root"], a["path"])
 
 
@@ -314,7 +339,7 @@ def chk_single(ctx, case):
     zs = [ak, a.get("seed", a.get("root", 0)), 0, int(case["seed_data"] is not None), case["seed_data"] or 0, n_rep] + list(a.get("path", []))
     keys, keys_before = [parse_keys(m.call("c15.single_keys", [v] + zs), n_rep)[0] for v in (0, 1)]
     ambient = any(k[0] == "ambient" for k in keys)
-    ctx.count("single", key=repr(case), nontrivial=n_rep >= 2, label="%s-%s-%s%s" % (case["tomo"], case["est"], a["kind"] if a["kind"] != "none" else ("default-seed_data" if case["seed_data"] is not None else "ambient"), "" if case["para"] else "-nopara"))
+    ctx.count("single", key=repr(case), nontrivial=n_rep >= 2, label="%s-%s-%s%s" % (case["tomo"], case["est"], (a["kind"] + (":np." + a["dtype"] if a.get("dtype") else "")) if a["kind"] != "none" else (("default-seed_data" + (":np." + case["seed_dtype"] if case.get("seed_dtype") else "")) if case["seed_data"] is not None else "ambient"), "" if case["para"] else "-nopara"))
     if not same and not (ambient and case.get("ambient_seed") is None):
         ctx.violation("single", site, "repeat-not-identical", "two runs with the same settings and seed differ", case)
     # (c) regenerate every repetition's data from the key the model assigns to it
@@ -341,10 +366,11 @@ def chk_single(ctx, case):
     if regenerate(keys) != stored:
         if keys_before != keys and regenerate(keys_before) == stored:
             ctx.violation("single", site, "repetitions-identical-int-seed",
-                          "execute_simulation with an int seed (%s): the repetitions do not draw from ONE stream (model keys %s) - every repetition starts a new "
+                          "execute_simulation with an integer seed (%s): the repetitions do not draw from ONE stream (model keys %s) - every repetition starts a new "
                           "generator from the seed (key %s for all of them; dataflow single_key_before_fix, theorem C15_single_run_int_seed_identical_before_fix): "
                           "repetitions %s have identical empirical distributions and estimates" % (
-                              "explicit" if a["kind"] == "int" else "simulation_setting.seed_data", keys, keys_before[0], ident_pairs), case)
+                              ("explicit" if a["kind"] == "int" else "simulation_setting.seed_data") + ", kind " + (("numpy." + (a.get("dtype") or case.get("seed_dtype"))) if (a.get("dtype") or case.get("seed_dtype")) else "python int"),
+                              keys, keys_before[0], ident_pairs), case)
         else:
             ctx.violation("single", site, "dataflow-model-mismatch",
                           "the repetitions do not use the streams the dataflow model assigns (model keys %s)" % (keys,), case)
@@ -378,6 +404,14 @@ def sub_single(ctx):
                 cases.append(dict(base, seed_data=sd, arg={"kind": "none"}))                                      # documented default: int seed_data
                 cases.append(dict(base, seed_data=rng.randrange(1, 2 ** 31), arg={"kind": "int", "seed": sd}))  # explicit int
                 cases.append(dict(base, seed_data=sd, arg={"kind": "gen", "root": rng.randrange(1, 2 ** 31), "path": [rng.randrange(5)] if rng.random() < 0.5 else []}))
+    # every KIND of integer seed the code accepts (to_stream: int or numpy.integer), as explicit argument and as seed_data default
+    dtypes = ["int64", "uint32", "int32", "uint64", "int16", "uint8"]
+    for dt in (rng.sample(dtypes, 2) + ["int64"] if ctx.quick else dtypes):
+        hi = {"int16": 2 ** 15, "uint8": 2 ** 8}.get(dt, 2 ** 31)
+        sd = rng.randrange(1, hi)
+        base = dict(tomo="state", est="linear", n_rep=3, num_data=[20, 2000], para=True)
+        cases.append(dict(base, seed_data=rng.randrange(1, 2 ** 31), arg={"kind": "int", "seed": sd, "dtype": dt}))
+        cases.append(dict(base, seed_data=sd, seed_dtype=dt, arg={"kind": "none"}))
     if ctx.quick:      # the other three kinds of unknown, once each (the thorough tier runs the full grid)
         for tomo in ["povm", "gate", "mprocess"]:
             cases.append(dict(tomo=tomo, est="linear", n_rep=3, num_data=[20, 500], para=True, seed_data=rng.randrange(1, 2 ** 31), arg={"kind": "none"}))
@@ -549,7 +583,8 @@ def build_test_setting(case):
     return EstimatorTestSetting(
         true_object=NoiseSetting(qoperation_base=tuple(tname), method=tm, para=dict(tp)),
         tester_objects=[NoiseSetting(qoperation_base=tuple(t), method=NOISE[n][0], para=dict(NOISE[n][1])) for t, n in zip(testers, noises)],
-        seed_qoperation=case["seed_qoperation"], seed_data=case["seed_data"], n_sample=case["n_sample"], n_rep=case["n_rep"],
+        seed_qoperation=mk_seed(case["seed_qoperation"], case.get("seed_dtype")), seed_data=mk_seed(case["seed_data"], case.get("seed_dtype")),
+        n_sample=case["n_sample"], n_rep=case["n_rep"],
         num_data=case["num_data"], schedules="all", case_names=list(names), estimators=[ecs[n]["estimator"] for n in names],
         eps_proj_physical_list=[1e-5] * len(names), eps_truncate_imaginary_part_list=[1e-5] * len(names),
         algo_list=[ecs[n]["algo"] for n in names], loss_list=[ecs[n]["loss"] for n in names],
@@ -779,6 +814,9 @@ def sub_flow(ctx):
         base(true_noise="depolarized", tester_noise=["depolarized", "random_lindbladian", "none"], parallel_modes=[]),
         base(true_noise="random_lindbladian", tester_noise=["random_lindbladian", "depolarized", "random_lindbladian"], parallel_modes=[]),
         base(true_noise="random_lindbladian", tester_noise=["none", "random_lindbladian", "depolarized"], parallel_modes=[]),
+        # NumPy-integer seeds (np.int64 from np.arange, np.uint32 from SeedSequence.generate_state): same model keys as the python ints
+        base(true_noise="random_lindbladian", tester_noise="random_lindbladian", ests=["linear", "projected_linear_ineq_eq"], paras=[True, False],
+             seed_dtype=rng.choice(["int64", "uint32"]), parallel_modes=[]),
         # homogeneous noise
         base(true_noise="none", tester_noise="none", parallel_modes=[all4], paras=[False, True, False],
              exec_check={"consistency": True, "mse_of_estimators": True, "mse_of_empi_dists": True, "physicality_violation": True}),
@@ -795,6 +833,113 @@ def sub_flow(ctx):
     ctx.sample("flow", cases[0])
     ctx.run_cases("flow", chk_flow, cases)
     ctx.note("flow: %d simulation runs; independence from OS process scheduling is OBSERVED over these runs (worker counts 1/2/4 at each of the four joblib levels), not proved (monitoring)" % _run_counter[0])
+
+
+# ------------------------------------------------------------------ every re-estimation entry point, configured estimators
+def chk_reest(ctx, case):
+    """Stored estimates must be reproduced BIT FOR BIT by every re-estimation entry point of both modules, for estimators / options that
+    carry NON-default configuration, on data for which the projection actually runs (model: C15_flow_reestimate - the stored estimate of
+    case k is  estimate k  applied to the stored objects and data, where k stands for the estimator WITH its configuration)."""
+    from quara.simulation import standard_qtomography_simulation as sim
+    from quara.simulation import standard_qtomography_simulation_flow as fl
+    root = os.path.join(SCRATCH, "reest")
+    shutil.rmtree(root, ignore_errors=True)
+    d_in = os.path.join(root, "in")
+    os.makedirs(d_in, exist_ok=True)
+    names = case["ests"]
+    try:
+        with quiet():
+            ts = build_test_setting(case)
+            ref = fl.execute_simulation_test_settings([ts], d_in, pdf_mode="none", exec_sim_check=dict(PHYS_ONLY))
+        by = {(r.result_index["sample_index"], r.result_index["case_index"]): r for r in ref}
+        stored = {k: [est_bytes(e) for e in r.estimation_results] for k, r in by.items()}
+        verdicts = {k: [x["result"] for x in r.check_result["results"] if x["name"] == "Physicality Violation"] for k, r in by.items()}
+        # did the configuration matter / the projection run?  (linear estimates unphysical beyond the projection threshold)
+        ran = False
+        if "linear" in names:
+            ci = names.index("linear")
+            for (s_, c_), r in by.items():
+                if c_ == ci:
+                    ran = ran or any(defects(q)[1] > 1e-4 for er in r.estimation_results for q in er.estimated_qoperation_sequence)
+        differs = False
+        if "projected_linear" in names and "projected_linear_ineq_eq" in names:
+            a_, b_ = names.index("projected_linear"), names.index("projected_linear_ineq_eq")
+            differs = any(stored[(s_, a_)] != stored[(s_, b_)] for s_ in range(case["n_sample"])
+                          if case["paras"][a_] == case["paras"][b_])
+        ctx.count("reest", key=repr(case), nontrivial=ran, label="%s-%s%s" % (case["tomo"], "projection-ran" if ran else "projection-idle", "-order-matters" if differs else ""))
+        ts_path = os.path.join(d_in, "0", "test_setting.pickle")
+        n_rep = case["n_rep"]
+
+        def report(entry, key_, rep, what="estimate"):
+            mod, fn = entry.split(".")
+            ctx.violation("reest", "standard_qtomography_simulation%s.%s" % ("_flow" if mod == "flow" else "", fn), "re-estimation-differs",
+                          "%s of (sample %d, case %d = %s, repetition %s) re-estimated through %s from the stored empirical distributions differs from the stored one "
+                          "(estimator / options carry non-default configuration: %s)" % (what, key_[0], key_[1], names[key_[1]], rep, entry, names[key_[1]]), case)
+        with quiet():
+            for key_, r in sorted(by.items()):
+                s_, c_ = key_
+                res_path = os.path.join(d_in, "0", str(s_), "case_%d_result.pickle" % c_)
+                got = {
+                    "sim.re_estimate": [sim.re_estimate(ts, r, rep) for rep in range(n_rep)],
+                    "sim.re_estimate_sequence": sim.re_estimate_sequence(ts, r),
+                    "sim.re_estimate_sequence_from_path": sim.re_estimate_sequence_from_path(ts_path, res_path),
+                    "sim.re_estimate_sequence_from_index": sim.re_estimate_sequence_from_index(d_in, 0, s_, c_),
+                    "flow.re_estimate_case_unit": fl.re_estimate_case_unit(d_in, c_, s_, 0, os.path.join(root, "out_case"), exec_sim_check=dict(PHYS_ONLY)).estimation_results,
+                }
+                if c_ == 0:
+                    got["flow.re_estimate_case_unit(test_setting=...)"] = fl.re_estimate_case_unit(
+                        d_in, c_, s_, 0, os.path.join(root, "out_case2"), test_setting=ts, exec_sim_check=dict(PHYS_ONLY)).estimation_results
+                # what was written to disk is what was returned
+                loaded = sim.load_simulation_results(d_in, 0, s_, c_)[0]
+                got["sim.load_simulation_results"] = loaded.estimation_results
+                for entry, ers in got.items():
+                    e2 = entry.split("(")[0]
+                    if len(ers) != n_rep:
+                        report(e2, key_, "count %d" % len(ers)); continue
+                    for rep in range(n_rep):
+                        if est_bytes(ers[rep]) != stored[key_][rep]:
+                            report(e2, key_, rep); break
+            multi = {
+                "flow.re_estimate_sample_unit": [x for s_ in range(case["n_sample"]) for x in fl.re_estimate_sample_unit(0, s_, os.path.join(root, "out_sample"), d_in, exec_sim_check=dict(PHYS_ONLY), pdf_mode="none")],
+                "flow.re_estimate_test_setting_unit": fl.re_estimate_test_setting_unit(0, os.path.join(root, "out_ts"), d_in, exec_sim_check=dict(PHYS_ONLY), pdf_mode="none"),
+                "flow.re_estimate_test_settings": fl.re_estimate_test_settings(d_in, os.path.join(root, "out_all"), "none", exec_sim_check=dict(PHYS_ONLY)),
+            }
+            for entry, results in multi.items():
+                seen = set()
+                for r2 in results:
+                    key_ = (r2.result_index["sample_index"], r2.result_index["case_index"])
+                    seen.add(key_)
+                    for rep in range(n_rep):
+                        if est_bytes(r2.estimation_results[rep]) != stored[key_][rep]:
+                            report(entry, key_, rep); break
+                    v2 = [x["result"] for x in r2.check_result["results"] if x["name"] == "Physicality Violation"]
+                    if v2 != verdicts[key_]:
+                        report(entry, key_, "-", what="physicality verdict")
+                if seen != set(by):
+                    ctx.violation("reest", "standard_qtomography_simulation_flow." + entry.split(".")[1], "re-estimation-incomplete",
+                                  "%s returned results for %s, stored run has %s" % (entry, sorted(seen), sorted(by)), case)
+    finally:
+        shutil.rmtree(root, ignore_errors=True)
+
+
+def sub_reest(ctx):
+    rng = ctx.rng
+    cases = []
+    ests = ["linear", "projected_linear", "projected_linear_ineq_eq", "loss_min_ineq_eq"]
+
+    def base(tomo, **kw):
+        d = dict(tomo=tomo, ests=list(ests), paras=[True] * len(ests), n_sample=1, n_rep=ctx.n(2, 3), num_data=[10, 100],
+                 seed_qoperation=rng.randrange(1, 2 ** 31), seed_data=rng.randrange(1, 2 ** 31), true_noise="none", tester_noise="none")
+        d.update(kw)
+        return d
+    cases.append(base("state_z0"))                                   # pure true state, few data: the projection runs
+    if not ctx.quick:
+        cases.append(base("state_y1", paras=[False] * len(ests), n_sample=2))
+        cases.append(base("state_z0", true_noise="depolarized", tester_noise="random_lindbladian", n_sample=2))
+        cases.append(base("povm", ests=["linear", "projected_linear", "projected_linear_ineq_eq"], paras=[True, True, True], num_data=[10, 50]))
+        cases.append(base("gate", ests=["linear", "projected_linear", "projected_linear_ineq_eq"], paras=[True, True, True], num_data=[10, 50]))
+    ctx.sample("reest", cases[0])
+    ctx.run_cases("reest", chk_reest, cases)
 
 
 # ------------------------------------------------------------------ depolarising noise
@@ -1198,7 +1343,7 @@ def sub_decision(ctx):
     both = [("11/10", "3/2")]
     for cfg in cfgs:
         for para in (True, False):
-            for _ in range(ctx.n(6, 30)):
+            for _ in range(30 if getattr(ctx, "widen", False) else ctx.n(6, 30)):
                 n_rep, n_num = rng.choice([1, 2, 3]), rng.choice([1, 2, 3])
                 flavour = rng.choice(["good", "ineq", "eq", "both", "mixed"])
                 ests = []
@@ -1269,9 +1414,61 @@ def sub_sched(ctx):
     ctx.run_cases("sched", chk_spawn, sp)
 
 
-SUBS = [("sched", sub_sched), ("decision", sub_decision), ("depol", sub_depol), ("randlind", sub_randlind), ("single", sub_single), ("race", sub_race), ("flow", sub_flow)]
+SUBS = [("sched", sub_sched), ("decision", sub_decision), ("depol", sub_depol), ("randlind", sub_randlind), ("single", sub_single), ("race", sub_race), ("reest", sub_reest), ("flow", sub_flow)]
 FNS = {"sched": lambda ctx, case: (chk_spawn if "counts" in case else chk_sched)(ctx, case), "decision": chk_decision, "depol": chk_depol,
-       "randlind": chk_randlind, "single": chk_single, "race": chk_race, "flow": chk_flow}
+       "randlind": chk_randlind, "single": chk_single, "race": chk_race, "reest": chk_reest, "flow": chk_flow}
+
+
+def regen_physcheck(ctx):
+    """translator tie (same protocol as flow.regen_check, with this property's own translator gen/c15_py2coq.py): regenerate Gallina
+    definitions of execute_physicality_violation_check and of the physicality_violation_check functions it reaches from the CURRENT
+    source, compile them, and re-check coq/gen/C15_Equiv.v (regenerated = hand-written decision-table model on all inputs; the
+    property theorem transported).  returns (ok, info)"""
+    import re, subprocess
+    import runner
+    scratch = os.path.join(getattr(ctx, "scratch", os.path.join(V, "build", ctx.prop_id)), "gen")
+    os.makedirs(scratch, exist_ok=True)
+    gen_v = os.path.join(scratch, "Gen_c15_physcheck.v")
+    for stem in (gen_v[:-2], os.path.join(scratch, "C15_Equiv")):
+        for ext in (".vo", ".vos", ".vok", ".glob"):
+            try:
+                os.remove(stem + ext)
+            except OSError:
+                pass
+    equiv = os.path.join(V, "coq", "gen", "C15_Equiv.v")
+    src = open(equiv).read()
+    src_nc = re.sub(r"\(\*.*?\*\)", " ", src, flags=re.S)
+    thms = re.findall(r"^\s*Theorem\s+([\w']+)", src_nc, flags=re.M)
+    ctx.theorems = list(ctx.theorems) + [t for t in thms if t not in ctx.theorems]
+    ctx.obligations += len(thms)
+    r = subprocess.run([sys.executable, os.path.join(V, "gen", "c15_py2coq.py"), os.environ.get("VERIF_REPO", "/repo"), gen_v],
+                       capture_output=True, text=True, timeout=120)
+    if r.returncode != 0:
+        return False, {"theorem": thms[0], "error": "translator rejected the source (outside its subset): " + (r.stdout + r.stderr)[-600:]}
+    q = ["-Q", os.path.join(V, "coq", "theories"), "QV", "-Q", scratch, "QVGen"]
+    r = subprocess.run(["timeout", "300", "coqc"] + q + [gen_v], capture_output=True, text=True)
+    if r.returncode != 0:
+        return False, {"theorem": thms[0], "error": "regenerated functions do not compile: " + (r.stdout + r.stderr)[-600:]}
+    dst = os.path.join(scratch, "C15_Equiv.v")
+    shutil.copy(equiv, dst)
+    r = subprocess.run(["timeout", "600", "coqc"] + q + [dst], capture_output=True, text=True)
+    out = r.stdout + r.stderr
+    if r.returncode != 0:
+        m_ = re.search(r"line (\d+), characters", out)
+        thm = None
+        if m_:
+            upto = "\n".join(src.splitlines()[:int(m_.group(1))])
+            names = re.findall(r"^\s*(?:Theorem|Lemma)\s+([\w']+)", upto, flags=re.M)
+            thm = names[-1] if names else None
+        return False, {"theorem": thm, "error": out[-800:]}
+    blocks = runner.parse_assumptions(out)
+    bad = [a for closed, axs in blocks for a in axs if a not in runner.ALLOWED_AXIOMS and a.split(".")[-1] not in runner.ALLOWED_AXIOMS]
+    if len(blocks) != len(thms) or bad:
+        return False, {"theorem": thms[0], "error": "assumption gate on regenerated proofs: %d blocks / %d theorems, disallowed %s" % (len(blocks), len(thms), bad)}
+    for t, (closed, axs) in zip(thms, blocks):
+        ctx.axioms[t] = "closed" if closed else sorted(set(axs))
+    ctx.discharged += len(thms)
+    return True, {}
 
 
 def run(ctx):
@@ -1294,8 +1491,26 @@ def run(ctx):
             finally:
                 walls[name] = time.time() - t0
         return run_sub
+    # flow.standard_run with this property's own translator tie (flow.regen_check is bound to gen/py2coq.py)
+    import runner
     try:
-        flow.standard_run(ctx, [(n, timed(n, f)) for n, f in SUBS])
+        ok, info = runner.check_props(ctx)
+        ok2, info2 = regen_physcheck(ctx)
+        if not ok2:
+            ok, info = False, info2
+            ctx.widen = True      # the tie is broken: the decision-table correspondence runs with the thorough-tier counts
+            ctx.note("regenerated physicality-check obligations (coq/gen/C15_Equiv.v) not discharged: %s" % str(info2)[:400])
+        if not ok:
+            ctx.discharged = min(ctx.discharged, ctx.obligations - 1)
+        for name, fn in SUBS:
+            if ctx.only is None or name in ctx.only:
+                timed(name, fn)(ctx)
+        if not ok and not ctx.violations:
+            ctx.violation("theorems", "Props/%s.v" % ctx.prop_id, "theorem-broken:%s" % info.get("theorem"),
+                          "theorem %s no longer checks: %s" % (info.get("theorem"), info.get("error", "")[-400:]),
+                          {"theorem": info.get("theorem"), "error": info.get("error")}, no_input=True)
+        elif not ok:
+            ctx.note("theorem obligations not discharged: %s" % info)
     finally:
         shutil.rmtree(SCRATCH, ignore_errors=True)
     ctx.note("wall per sub-check (s): " + ", ".join("%s %.1f" % (n, walls[n]) for n, _ in SUBS if n in walls))
